@@ -134,7 +134,7 @@ func childLoad(raw json.RawMessage, io *core.ChildIO) (any, error) {
 
 // loadFresh loads one offsets file in a fresh process with the real load.
 func loadFresh(path string) (loadRes, bool) {
-	r := core.RunChild("load", loadIn{Paths: []string{path}}, core.ChildOpt{Timeout: 2 * time.Minute, GOMAXPROCS: 2})
+	r := runChild("load", loadIn{Paths: []string{path}}, core.ChildOpt{Timeout: 2 * time.Minute, GOMAXPROCS: 2})
 	if r.Completed {
 		var out []loadRes
 		if json.Unmarshal(r.Out, &out) == nil && len(out) == 1 {
@@ -198,11 +198,12 @@ func whichSnapshot(l loadRes, P, N *WTable) string {
 
 func monitorFaults(c *core.Ctx) {
 	pairs := c.N(20, 200)
+	// a second file system for the rename-fails(EXDEV) case: the regular scratch base, if it is another device than tmpfs
 	otherFS := ""
-	if st, err := os.Stat("/dev/shm"); err == nil && st.IsDir() {
+	{
 		var a, b syscall.Stat_t
-		if syscall.Stat("/dev/shm", &a) == nil && syscall.Stat(core.ScratchBase(), &b) == nil && a.Dev != b.Dev {
-			otherFS = "/dev/shm"
+		if syscall.Stat(fastScratch, &a) == nil && syscall.Stat(core.ScratchBase(), &b) == nil && a.Dev != b.Dev {
+			otherFS = core.ScratchBase()
 		}
 	}
 	type job struct {
@@ -275,7 +276,7 @@ func monitorFaults(c *core.Ctx) {
 	core.ParallelFor(len(jobs), 16, func(i int) {
 		jb := jobs[i]
 		fc := jb.fc
-		dir := scratchDir("")
+		dir := scratchDir(fastScratch)
 		defer os.RemoveAll(dir)
 		cur := filepath.Join(dir, "offsets.yaml")
 		tmp := cur + ".atomic"
@@ -285,7 +286,7 @@ func monitorFaults(c *core.Ctx) {
 		case "missingdir":
 			tmpN = filepath.Join(dir, "no-such-dir", "offsets.yaml.atomic")
 		case "otherfs":
-			d := scratchDir("/dev/shm")
+			d, _ := os.MkdirTemp(otherFS, "verif-c07-")
 			cleanup = append(cleanup, d)
 			tmpN = filepath.Join(d, "offsets.yaml.atomic")
 		}
@@ -303,7 +304,7 @@ func monitorFaults(c *core.Ctx) {
 			// the previous snapshot is written by an uninstrumented process first; the
 			// traced process then only does the failing save (it issues no other fsync).
 			if jb.P != nil {
-				pre := core.RunChild("save2", save2In{Cur: cur, Tmp: tmp, N: jb.P}, core.ChildOpt{Timeout: 2 * time.Minute})
+				pre := runChild("save2", save2In{Cur: cur, Tmp: tmp, N: jb.P}, core.ChildOpt{Timeout: 2 * time.Minute})
 				if !pre.Completed {
 					c.Inconclusive("fault: could not write previous snapshot")
 					return
@@ -312,7 +313,7 @@ func monitorFaults(c *core.Ctx) {
 			in.P = nil
 			opt.Prefix = []string{"/usr/bin/strace", "-f", "-o", filepath.Join(dir, "trace.txt"), "-e", "trace=fsync,fdatasync", "-e", fc.strace}
 		}
-		res := core.RunChild("save2", in, opt)
+		res := runChild("save2", in, opt)
 		if res.TimedOut {
 			c.Inconclusive("fault child watchdog")
 			return
@@ -380,7 +381,7 @@ func monitorFaults(c *core.Ctx) {
 				}
 				paths = append(paths, p)
 			}
-			lr := core.RunChild("load", loadIn{Paths: paths}, core.ChildOpt{Timeout: 2 * time.Minute})
+			lr := runChild("load", loadIn{Paths: paths}, core.ChildOpt{Timeout: 2 * time.Minute})
 			var ls []loadRes
 			if !lr.Completed || json.Unmarshal(lr.Out, &ls) != nil || len(ls) != len(paths) {
 				c.Inconclusive("observe: loader failed")
@@ -559,7 +560,7 @@ func monitorGenericFaults(c *core.Ctx) {
 	core.ParallelFor(len(cases), 16, func(k int) {
 		gc := cases[k]
 		rng := c.Rand(fmt.Sprintf("gfault-%d", k))
-		dir := scratchDir("")
+		dir := scratchDir(fastScratch)
 		defer os.RemoveAll(dir)
 		path := filepath.Join(dir, "journal-offsets.yaml")
 		P := &genericInfo{Offset: rng.Int63n(1e6), Cursor: "s=aa;i=" + fmt.Sprint(rng.Intn(1e6))}
@@ -572,7 +573,7 @@ func monitorGenericFaults(c *core.Ctx) {
 		if gc.hooks != "" {
 			opt.Env = []string{"VERIF_HOOKS=" + gc.hooks}
 		}
-		res := core.RunChild("gsave2", in, opt)
+		res := runChild("gsave2", in, opt)
 		if res.TimedOut {
 			c.Inconclusive("generic fault watchdog")
 			return
@@ -594,7 +595,7 @@ func monitorGenericFaults(c *core.Ctx) {
 				c.Count("generic.fault.shortwrite_not_reported_by_Save", 1)
 			}
 		}
-		lr := core.RunChild("gload", gloadIn{Path: path}, core.ChildOpt{Timeout: time.Minute})
+		lr := runChild("gload", gloadIn{Path: path}, core.ChildOpt{Timeout: time.Minute})
 		if !lr.Completed {
 			c.Inconclusive("generic loader failed")
 			return
